@@ -946,6 +946,12 @@ func (p *Path) step() {
 	ins := f.block.Instrs[f.pc]
 	p.steps++
 	p.run.steps++
+	if p.run.steps&0xfffff == 0 {
+		p.run.tick(p)
+		if p.outcome != nil {
+			return
+		}
+	}
 	if p.steps > p.run.maxSteps {
 		p.end("steplimit", fmt.Sprintf("step limit %d exceeded at %s", p.run.maxSteps, p.where()))
 		return
